@@ -2,14 +2,14 @@
 from .. import cases, monitors
 
 TITLE = "Best alignment is a partition of the continuum's units"
-DECIDING = ["M-PART", "M-SOLVER", "M-PART-SESSION"]
+DECIDING = ["M-PART", "M-SOLVER", "M-PART-SESSION", "M-PART-CONCURRENT"]
 LEVEL = "exploration"
 RULE = ("seeded random continua (2-5 annotators, 0..k units each, ten segment families incl. identical units across "
         "annotators, nested, long-overlapping, touching, negative times; labelled, unlabelled and mixed) x pooled "
         "dissimilarities of every built-in class and parameter value x both MIP back-ends; 12 % of the cases are editing "
         "continua with > 100 000 candidate tuples, annotator names whose alphabetical order differs from numeric / "
         "case-insensitive / insertion order, and sessions (align, then add_annotator / merge of a unit-less annotator / add / remove / reset_bounds, align again "
-        "on the same continuum and dissimilarity objects, 2-6 edits); a case is non-trivial when "
+        "on the same continuum and dissimilarity objects, 2-6 edits), plus a block in which one continuum object is aligned by 8 user threads at once with different dissimilarities; a case is non-trivial when "
         "the continuum has >= 2 units in total; distinct = distinct (continuum, dissimilarity, back-end) by SHA-1 of the "
         "canonical case")
 ASSUMPTIONS = [
@@ -90,6 +90,9 @@ def check_session(ctx, case):
 
 
 def check_case(ctx, case):
+    if "concurrent" in case:
+        from . import _align_common as ac
+        return ac.check_concurrent_case(ctx, case, "M-PART-CONCURRENT")
     if "session" in case:
         return check_session(ctx, case)
     spy, pool = _setup(ctx)
@@ -145,13 +148,11 @@ def run(ctx):
         ctx.begin_case(case)
         ctx.observe("backend", "session")
         check_case(ctx, case)
-    # very large candidate sets (> 100 000 tuples under the cut): dense overlapping units, 5 annotators x 10-11 units
-    for _ in range(ctx.scale(1, 6)):
-        n, k = ctx.rng.choice([(5, 10), (5, 11), (4, 19)])
-        big = cases.gen_continuum(ctx.rng, n_annot=n, sizes=[k] * n, family="dense", names=cases.pick_names(ctx.rng, n))
-        case = {"continuum": big, "dissim": {"kind": "positional", "delta": 1.0}, "backend": "cbc"}
+    # one continuum object aligned by several user threads at once (different dissimilarities)
+    for _ in range(ctx.scale(4, 60)):
+        case = ac0.gen_concurrent_case(ctx.rng, "best")
         ctx.begin_case(case)
-        ctx.observe("family", "dense-huge-candidate-set")
+        ctx.observe("backend", "concurrent-threads")
         check_case(ctx, case)
     n_cases = ctx.scale(400, 10000)
     for _ in range(n_cases):
@@ -176,4 +177,13 @@ def run(ctx):
                     cases.spec_num_units(cs) else
                     ("mixed" if any(u[2] is None for us in cs["ann"].values() for u in us) else "all"))
         ctx.observe("empty_annotators", sum(1 for us in cs["ann"].values() if not us))
+        check_case(ctx, case)
+    # very large candidate sets (> 100 000 tuples under the cut): dense overlapping units, 5 annotators x 10-11 units
+    # (after the random cases, whatever is left of the time budget: one such case costs 10 - 60 s depending on the machine)
+    for _ in range(ctx.scale(1, 6)):
+        n, k = ctx.rng.choice([(5, 10), (5, 11), (4, 19)])
+        big = cases.gen_continuum(ctx.rng, n_annot=n, sizes=[k] * n, family="dense", names=cases.pick_names(ctx.rng, n))
+        case = {"continuum": big, "dissim": {"kind": "positional", "delta": 1.0}, "backend": "cbc"}
+        ctx.begin_case(case)
+        ctx.observe("family", "dense-huge-candidate-set")
         check_case(ctx, case)
